@@ -4,11 +4,56 @@
 -/
 import Vita.Common.IntE
 import Vita.C14.Gen
-open Vita.IntE
+import Vita.C14.GenNum
+import Vita.C13.Wire
+open Vita.IntE Vita.Wire
+
+/-- one exact binary64 operation of the model (`b64 <op> a b`) -/
+def b64Op (op : String) (a : Nat) (y : String) : String :=
+  let bit (b : Bool) : String := if b then "1" else "0"
+  match op with
+  | "ofint" => match y.toInt? with
+    | some n => toHex16 (UInt64.ofNat (Vita.B64.ofInt n))
+    | none => "bad-op"
+  | "isnan" => bit (Vita.B64.isNaN a)
+  | "isfinite" => bit (Vita.B64.isFinite a)
+  | "trunc" => match (Vita.B64.ext a).trunc with
+    | none => "none"
+    | some n => if n.natAbs < 9223372036854775808 then toString n else "big"
+  | _ => match hexNat? y with
+    | none => "bad-op"
+    | some b => match op with
+      | "lt" => bit (Vita.B64.lt a b)
+      | "le" => bit (Vita.B64.le a b)
+      | "eq" => bit (Vita.B64.eq a b)
+      | _ => "bad-op"
 
 def answer (line : String) : String :=
   match line.trimAscii.toString.splitOn " " with
   | "names" :: _ => " ".intercalate (Vita.C14.Gen.ops.map (·.1))
+  | ["number", h] =>
+    match hexNat? h with
+    | none => "bad-op"
+    | some p =>
+      match Vita.C14.GenNum.numberEval p with
+      | .ok v => s!"ok I{v}"
+      | .error _ => "ub"
+  | ["init", m, u, r] =>
+    match m.toInt?, u.toInt?, r.toInt? with
+    | some m, some u, some r =>
+      toHex16 (UInt64.ofNat (Vita.C14.GenNum.numberInit (fun _ _ => r) m u)) ++ " " ++
+        (if (Vita.C14.GenNum.flags.any fun f => f.1 == "number" && f.2.1 == "parametric" && f.2.2) then "1" else "0")
+    | _, _, _ => "bad-op"
+  | ["cast", v] =>
+    match decodeVal? v with
+    | none => "bad-op"
+    | some x => match Vita.C14.GenNum.cast x with
+      | some n => s!"ok {n}"
+      | none => "T"
+  | ["b64", op, a, b] =>
+    match hexNat? a with
+    | none => "bad-op"
+    | some x => b64Op op x b
   | name :: rest =>
     match Vita.C14.Gen.ops.lookup name with
     | none => "bad-op"
